@@ -2344,6 +2344,16 @@ func (c S3ApiController) PutActions(ctx *fiber.Ctx) error {
 
 			grants := []types.Grant{}
 			for _, grt := range accessControlPolicy.AccessControlList.Grants {
+				if grt.Grantee == nil {
+					return SendResponse(ctx,
+						s3err.GetAPIError(s3err.ErrInvalidRequest),
+						&MetaOpts{
+							Logger:      c.logger,
+							MetricsMng:  c.mm,
+							Action:      metrics.ActionPutObjectAcl,
+							BucketOwner: parsedAcl.Owner,
+						})
+				}
 				grants = append(grants, types.Grant{
 					Grantee: &types.Grantee{
 						ID:   &grt.Grantee.ID,
